@@ -1,4 +1,348 @@
-(* C06 lemmas *)
+(* C06 lemmas: Lyapunov doubling closed form / residual (all dimensions, exact over Q),
+   loop-to-iterate link (any Num instance), scalar Riccati doubling invariant. *)
 From Coq Require Import ZArith QArith List Bool Lia Lqa Setoid Morphisms.
 From QE Require Import Base.Num Base.LinAlg Base.Gauss C06.Model.
+From QE Require C06.Poly.
 Import ListNotations.
+
+(* ------------------------------------------------------------------ *)
+(* the loop returns an iterate of lyap_step (every Num instance, hence also binary64) *)
+Section Loop.
+Context {T : Type} `{Num T}.
+
+Lemma lyap_iter_S k n (A B : list (list T)) :
+  lyap_iter (S k) n A B = lyap_step n (lyap_iter k n A B).
+Proof. reflexivity. Qed.
+
+Opaque lyap_step.
+Lemma lyap_loop_is_iterate fuel tol max_it n (A B : list (list T)) :
+  forall n_its i k X,
+  lyap_loop fuel tol max_it n_its n (fst (lyap_iter i n A B)) (snd (lyap_iter i n A B)) i = Some (k, X) ->
+  (i < k)%nat /\ X = snd (lyap_iter k n A B) /\
+  nltb tol (mmaxabsdiff n n (snd (lyap_iter k n A B)) (snd (lyap_iter (pred k) n A B))) = false /\
+  (n_its + Z.of_nat (k - i) <= max_it)%Z.
+Proof.
+  induction fuel as [|f IH]; intros n_its i k X; simpl; [discriminate|].
+  pose proof (lyap_iter_S i n A B) as HS.
+  destruct (lyap_iter i n A B) as [al ga] eqn:Ei. simpl fst; simpl snd.
+  destruct (lyap_step n (al, ga)) as [al1 ga1] eqn:Es.
+  destruct (max_it <? n_its + 1)%Z eqn:Ecap; [discriminate|].
+  apply Z.ltb_ge in Ecap.
+  destruct (nltb tol (mmaxabsdiff n n ga1 ga)) eqn:Ed.
+  - intros Hloop.
+    specialize (IH (n_its + 1)%Z (S i) k X).
+    rewrite HS in IH. simpl fst in IH; simpl snd in IH.
+    destruct (IH Hloop) as [Hlt [HX [Hd Hc]]].
+    repeat split; try assumption; lia.
+  - intros Hloop. injection Hloop as <- <-.
+    rewrite HS. simpl pred. rewrite Ei. simpl snd.
+    repeat split; try assumption; try lia.
+Qed.
+Transparent lyap_step.
+
+(* solve_discrete_lyapunov = Some (k, X): X is the k-th doubling iterate gamma_k (k >= 1), the stopping
+   test fired at step k, and k + 1 <= max_it (no ValueError) *)
+Lemma solve_discrete_lyapunov_iterate tol max_it n (A B : list (list T)) k X :
+  solve_discrete_lyapunov tol max_it n A B = Some (k, X) ->
+  (1 <= k)%nat /\ X = snd (lyap_iter k n A B) /\
+  nltb tol (mmaxabsdiff n n (snd (lyap_iter k n A B)) (snd (lyap_iter (pred k) n A B))) = false /\
+  (Z.of_nat k + 1 <= max_it)%Z.
+Proof.
+  unfold solve_discrete_lyapunov. intros Hs.
+  pose proof (lyap_loop_is_iterate (S (Z.to_nat max_it)) tol max_it n A B 1%Z 0%nat k X) as L.
+  simpl lyap_iter in L. simpl fst in L; simpl snd in L.
+  destruct (L Hs) as [H1 [H2 [H3 H4]]]. repeat split; try assumption; lia.
+Qed.
+
+(* the Riccati loop returns H_k + gamma I for an iterate of ricc_step *)
+Lemma ricc_iter_S k ns (AGH : list (list T) * list (list T) * list (list T)) :
+  ricc_iter (S k) ns AGH =
+  match ricc_iter k ns AGH with None => None | Some (A0, G0, H0) => ricc_step ns A0 G0 H0 end.
+Proof. reflexivity. Qed.
+
+Lemma ricc_loop_is_iterate fuel tol max_iter ns gamma AGH0 :
+  forall i_ error A0 G0 H0 H1 its k X,
+  ricc_iter its ns AGH0 = Some (A0, G0, H0) ->
+  H1 = match its with O => None | S _ => Some H0 end ->
+  ricc_loop fuel tol max_iter i_ error ns gamma A0 G0 H0 H1 its = RiccOk k X ->
+  (its <= k)%nat /\ (1 <= k)%nat /\
+  exists Ak Gk Hk, ricc_iter k ns AGH0 = Some (Ak, Gk, Hk) /\
+                   X = madd ns ns Hk (mscale ns ns gamma (mid ns)).
+Proof.
+  induction fuel as [|f IH]; intros i_ error A0 G0 H0 H1 its k X Hit HH1; simpl; [discriminate|].
+  destruct (nltb tol error).
+  - destruct (max_iter <? i_)%Z; [discriminate|].
+    destruct (ricc_step ns A0 G0 H0) as [[[A1 G1] H1']|] eqn:Es; [|discriminate].
+    intros Hl.
+    assert (Hit' : ricc_iter (S its) ns AGH0 = Some (A1, G1, H1')).
+    { rewrite ricc_iter_S, Hit. exact Es. }
+    destruct (IH _ _ _ _ _ _ _ _ _ Hit' eq_refl Hl) as [Hle [H1k Hex]].
+    repeat split; try lia. exact Hex.
+  - subst H1. destruct its as [|its']; [discriminate|].
+    intros Hl. injection Hl as <- <-.
+    repeat split; try lia. exists A0, G0, H0. split; [exact Hit|reflexivity].
+Qed.
+
+Lemma solve_discrete_riccati_iterate tol max_iter ns nc gamma (A B Q R N : list (list T)) k X :
+  solve_discrete_riccati tol max_iter ns nc gamma A B Q R N = RiccOk k X ->
+  (1 <= k)%nat /\
+  exists AGH0 Ak Gk Hk, ricc_init ns nc gamma A B Q R N = Some AGH0 /\
+     ricc_iter k ns AGH0 = Some (Ak, Gk, Hk) /\ X = madd ns ns Hk (mscale ns ns gamma (mid ns)).
+Proof.
+  unfold solve_discrete_riccati.
+  destruct (ricc_init ns nc gamma A B Q R N) as [[[A0 G0] H0]|] eqn:Ei; [|discriminate].
+  intros Hl.
+  assert (H0it : ricc_iter 0 ns (A0, G0, H0) = Some (A0, G0, H0)) by reflexivity.
+  destruct (ricc_loop_is_iterate _ _ _ _ _ (A0, G0, H0) _ _ _ _ _ _ _ _ _ H0it eq_refl Hl)
+    as [_ [Hk [Ak [Gk [Hk' [E1 E2]]]]]].
+  split; [exact Hk|]. exists (A0, G0, H0), Ak, Gk, Hk'. auto.
+Qed.
+End Loop.
+
+(* ------------------------------------------------------------------ *)
+(* exact theorems over Q *)
+Local Open Scope Q_scope.
+
+(* F_j = (A^j B) (A^j)' *)
+Definition lyap_term (n : nat) (A B : Qmat) (l : nat) : Qmat :=
+  mmul n n n (mmul n n n (mpow n A l) B) (mtr n n (mpow n A l)).
+
+Lemma lyap_term_shift n A B p l :
+  meq n n (lyap_term n A B (p + l))
+          (mmul n n n (mmul n n n (mpow n A p) (lyap_term n A B l)) (mtr n n (mpow n A p))).
+Proof.
+  unfold lyap_term.
+  rewrite (mpow_add n A p l).
+  rewrite (mtr_mmul n n n (mpow n A p) (mpow n A l)).
+  rewrite !mmul_assoc. reflexivity.
+Qed.
+
+Lemma pow2_S k : (2 ^ S k = 2 ^ k + 2 ^ k)%nat.
+Proof. simpl. lia. Qed.
+
+Theorem lyap_doubling_closed_form n (A B : Qmat) k :
+  meq n n (fst (lyap_iter k n A B)) (mpow n A (2 ^ k)) /\
+  meq n n (snd (lyap_iter k n A B)) (msum n n (2 ^ k) (lyap_term n A B)).
+Proof.
+  induction k.
+  - simpl. split.
+    + symmetry. apply mmul_id_r.
+    + unfold lyap_term. simpl mpow.
+      rewrite madd_zero_l. rewrite mmul_id_l. rewrite mtr_mid. rewrite mmul_id_r. reflexivity.
+  - rewrite lyap_iter_S. destruct (lyap_iter k n A B) as [al ga].
+    simpl fst in *; simpl snd in *. destruct IHk as [Ha Hg].
+    unfold lyap_step. simpl fst; simpl snd. rewrite pow2_S. split.
+    + rewrite Ha. symmetry. apply mpow_add.
+    + rewrite Ha, Hg.
+      rewrite (msum_split n n (2 ^ k) (2 ^ k) (lyap_term n A B)).
+      apply madd_proper; [reflexivity|].
+      rewrite mmul_msum_distr_l. rewrite mmul_msum_distr_r.
+      apply msum_ext. intros l Hl. symmetry. apply lyap_term_shift.
+Qed.
+
+Lemma sumQ_shift p f : sumQ p (fun l => f (S l)) + f 0%nat == sumQ p f + f p.
+Proof. induction p; simpl; [ring|]. lra. Qed.
+
+Lemma lyap_term_succ n A B l :
+  meq n n (mmul n n n (mmul n n n A (lyap_term n A B l)) (mtr n n A)) (lyap_term n A B (S l)).
+Proof.
+  unfold lyap_term. simpl mpow.
+  rewrite (mtr_mmul n n n A (mpow n A l)).
+  rewrite !mmul_assoc. reflexivity.
+Qed.
+
+Lemma lyap_term_0 n A B : meq n n (lyap_term n A B 0) B.
+Proof.
+  unfold lyap_term. simpl mpow. rewrite mmul_id_l, mtr_mid, mmul_id_r. reflexivity.
+Qed.
+
+(* A gamma_k A' - gamma_k + B = alpha_k B alpha_k' *)
+Theorem lyap_residual n (A B : Qmat) k :
+  meq n n (lyap_residual_mat n A B (snd (lyap_iter k n A B)))
+          (mmul n n n (mmul n n n (fst (lyap_iter k n A B)) B) (mtr n n (fst (lyap_iter k n A B)))).
+Proof.
+  destruct (lyap_doubling_closed_form n A B k) as [Ha Hg].
+  unfold lyap_residual_mat. rewrite Ha, Hg.
+  set (p := (2 ^ k)%nat).
+  rewrite mmul_msum_distr_l, mmul_msum_distr_r.
+  rewrite (msum_ext n n p _ (fun l => lyap_term n A B (S l))) by (intros; apply lyap_term_succ).
+  change (mmul n n n (mmul n n n (mpow n A p) B) (mtr n n (mpow n A p))) with (lyap_term n A B p).
+  intros i j Hi Hj.
+  rewrite get_madd, get_msub, !get_msum by assumption.
+  pose proof (sumQ_shift p (fun l => get (lyap_term n A B l) i j)) as Sh. cbv beta in Sh.
+  rewrite (lyap_term_0 n A B i j Hi Hj) in Sh. lra.
+Qed.
+
+(* what the stopping test measures: gamma_{k+1} - gamma_k = alpha_k gamma_k alpha_k' *)
+Theorem lyap_step_is_tail n (A B : Qmat) k :
+  meq n n (msub n n (snd (lyap_iter (S k) n A B)) (snd (lyap_iter k n A B)))
+          (mmul n n n (mmul n n n (fst (lyap_iter k n A B)) (snd (lyap_iter k n A B)))
+                (mtr n n (fst (lyap_iter k n A B)))).
+Proof.
+  rewrite lyap_iter_S. destruct (lyap_iter k n A B) as [al ga]. simpl. mlin.
+Qed.
+
+(* the solver's answer: X = sum_{j < 2^k} A^j B A'^j for the k >= 1 it stopped at, and its residual *)
+Theorem lyap_solver_spec tol max_it n (A B : Qmat) k X :
+  solve_discrete_lyapunov tol max_it n A B = Some (k, X) ->
+  (1 <= k)%nat /\ (Z.of_nat k + 1 <= max_it)%Z /\
+  meq n n X (msum n n (2 ^ k) (lyap_term n A B)) /\
+  meq n n (lyap_residual_mat n A B X)
+          (mmul n n n (mmul n n n (mpow n A (2 ^ k)) B) (mtr n n (mpow n A (2 ^ k)))).
+Proof.
+  intros Hs. destruct (solve_discrete_lyapunov_iterate _ _ _ _ _ _ _ Hs) as [Hk [HX [_ Hc]]].
+  subst X. repeat split; try assumption.
+  - apply lyap_doubling_closed_form.
+  - rewrite lyap_residual. destruct (lyap_doubling_closed_form n A B k) as [Ha _].
+    rewrite Ha. reflexivity.
+Qed.
+
+(* ------------------------------------------------------------------ *)
+(* scalar Riccati: the model at ns = nc = 1 *)
+Lemma solve_1x1 (Am Bm : Qmat) :
+  solve 1 1 Am Bm = if Qeq_bool (get Am 0 0) 0 then None else Some [[Qdivr (get Bm 0 0) (get Am 0 0)]].
+Proof.
+  unfold solve, gj_loop, gj_step, get. cbn -[Qeq_bool Qdivr Qsubr Qmulr Qaddr].
+  destruct (Qeq_bool _ 0); reflexivity.
+Qed.
+
+Ltac qnorm := unfold Qaddr, Qmulr, Qsubr, Qdivr; repeat rewrite Qred_correct.
+
+(* y = a^2 y / (1 + g y) + h, cleared of its denominator *)
+Definition sda_eq (a g h y : Q) : Prop := y * (1 + g * y) == a * a * y + h * (1 + g * y).
+(* a^2 x - (n + b x a)^2 / (r + b^2 x) + q - x *)
+Definition ricc_res_scalar (a b q r nn x : Q) : Q :=
+  a * a * x - (nn + b * x * a) * (nn + b * x * a) / (r + b * b * x) + q - x.
+
+Lemma ricc_init_scalar g a b q r nn A0 G0 H0 :
+  ricc_init 1 1 g [[a]] [[b]] [[q]] [[r]] [[nn]] = Some (A0, G0, H0) ->
+  let Rh := r + g * (b * b) in
+  ~ Rh == 0 /\
+  get G0 0 0 == b * (b / Rh) /\
+  get A0 0 0 == (1 - g * (b * (b / Rh))) * a - b * (nn / Rh) /\
+  get H0 0 0 == g * (a * ((1 - g * (b * (b / Rh))) * a - b * (nn / Rh)))
+                - (- q + nn * ((nn + g * (b * a)) / Rh) + g).
+Proof.
+  unfold ricc_init. rewrite !solve_1x1.
+  cbn -[Qeq_bool Qdivr Qsubr Qmulr Qaddr].
+  destruct (Qeq_bool _ 0) eqn:E; [discriminate|].
+  intros Heq. injection Heq as <- <- <-.
+  assert (Hnz : ~ r + g * (b * b) == 0).
+  { intro Hz. apply Qeq_bool_neq in E. apply E. qnorm.
+    setoid_replace (r + g * (0 + b * b)) with (r + g * (b * b)) by ring. exact Hz. }
+  cbn -[Qdivr Qsubr Qmulr Qaddr]. split; [exact Hnz|].
+  repeat split; qnorm; field; exact Hnz.
+Qed.
+
+Lemma ricc_step_scalar A0 G0 H0 A1 G1 H1 :
+  ricc_step 1 A0 G0 H0 = Some (A1, G1, H1) ->
+  let a0 := get A0 0 0 in let g0 := get G0 0 0 in let h0 := get H0 0 0 in
+  ~ 1 + g0 * h0 == 0 /\
+  get A1 0 0 == a0 * a0 / (1 + g0 * h0) /\
+  get G1 0 0 == g0 + a0 * g0 * a0 / (1 + g0 * h0) /\
+  get H1 0 0 == h0 + a0 * h0 * a0 / (1 + g0 * h0).
+Proof.
+  unfold ricc_step. rewrite !solve_1x1.
+  set (a0 := get A0 0 0). set (g0 := get G0 0 0). set (h0 := get H0 0 0).
+  assert (E1 : get (madd 1 1 (mid 1) (mmul 1 1 1 G0 H0)) 0 0 == 1 + g0 * h0).
+  { rewrite get_madd, get_mid, get_mmul by lia. simpl. unfold g0, h0. ring. }
+  assert (E2 : get (madd 1 1 (mid 1) (mmul 1 1 1 H0 G0)) 0 0 == 1 + g0 * h0).
+  { rewrite get_madd, get_mid, get_mmul by lia. simpl. unfold g0, h0. ring. }
+  destruct (Qeq_bool (get (madd 1 1 (mid 1) (mmul 1 1 1 G0 H0)) 0 0) 0) eqn:B1; [discriminate|].
+  destruct (Qeq_bool (get (madd 1 1 (mid 1) (mmul 1 1 1 H0 G0)) 0 0) 0) eqn:B2; [discriminate|].
+  intros Heq. injection Heq as <- <- <-.
+  apply Qeq_bool_neq in B1. rewrite E1 in B1.
+  split; [exact B1|].
+  repeat split.
+  - rewrite get_mmul by lia. simpl. change (get [[?x]] 0 0) with x.
+    rewrite E1. qnorm. fold a0. field. exact B1.
+  - rewrite get_madd, get_mmul by lia. simpl. change (get [[?x]] 0 0) with x.
+    rewrite get_mmul, get_mtr by lia. simpl. rewrite E2. qnorm. fold a0 g0. field. exact B1.
+  - rewrite get_madd, get_mmul by lia. simpl. change (get [[?x]] 0 0) with x.
+    rewrite get_mmul, get_mtr by lia. simpl. rewrite E2. qnorm. fold a0 g0 h0. field. exact B1.
+Qed.
+
+#[global] Instance sda_eq_proper : Proper (Qeq ==> Qeq ==> Qeq ==> Qeq ==> iff) sda_eq.
+Proof. intros a a' Ea g g' Eg h h' Eh y y' Ey. unfold sda_eq. now rewrite Ea, Eg, Eh, Ey. Qed.
+
+(* the (A0,G0,H0) built from (a,b,q,r,n,gamma): the shifted unknown y = x - gamma satisfies the doubling
+   equation exactly when x satisfies the Riccati equation *)
+Lemma ricc_init_scalar_transfer g a b q r nn x A0 G0 H0 :
+  ricc_init 1 1 g [[a]] [[b]] [[q]] [[r]] [[nn]] = Some (A0, G0, H0) ->
+  ~ r + b * b * x == 0 ->
+  ricc_res_scalar a b q r nn x == 0 ->
+  sda_eq (get A0 0 0) (get G0 0 0) (get H0 0 0) (x - g).
+Proof.
+  intros Hi Hd Hres. destruct (ricc_init_scalar _ _ _ _ _ _ _ _ _ Hi) as [Hnz [Eg [Ea Eh]]].
+  rewrite Ea, Eg, Eh. unfold sda_eq.
+  set (Rh := r + g * (b * b)) in *.
+  assert (Key : (x - g) * (1 + b * (b / Rh) * (x - g))
+                - (((1 - g * (b * (b / Rh))) * a - b * (nn / Rh)) * ((1 - g * (b * (b / Rh))) * a - b * (nn / Rh)) * (x - g)
+                   + (g * (a * ((1 - g * (b * (b / Rh))) * a - b * (nn / Rh))) - (- q + nn * ((nn + g * (b * a)) / Rh) + g))
+                     * (1 + b * (b / Rh) * (x - g)))
+                == - ricc_res_scalar a b q r nn x * ((r + b * b * x) / Rh)).
+  { unfold ricc_res_scalar, Rh. field. split; [exact Hnz|exact Hd]. }
+  rewrite Hres in Key. lra.
+Qed.
+
+Lemma ricc_step_scalar_transfer A0 G0 H0 A1 G1 H1 y :
+  ricc_step 1 A0 G0 H0 = Some (A1, G1, H1) ->
+  sda_eq (get A0 0 0) (get G0 0 0) (get H0 0 0) y ->
+  sda_eq (get A1 0 0) (get G1 0 0) (get H1 0 0) y.
+Proof.
+  intros Hs He. destruct (ricc_step_scalar _ _ _ _ _ _ Hs) as [Hnz [Ea [Eg Eh]]].
+  unfold sda_eq in *.
+  apply (Poly.sda_step_poly (get A0 0 0) (get G0 0 0) (get H0 0 0) y (/ (1 + get G0 0 0 * get H0 0 0))).
+  - field. exact Hnz.
+  - rewrite Ea. field. exact Hnz.
+  - rewrite Eg. field. exact Hnz.
+  - rewrite Eh. field. exact Hnz.
+  - exact He.
+Qed.
+
+Theorem riccati_scalar_fixed_point_transfer g a b q r nn x k AGH0 Ak Gk Hk :
+  ricc_init 1 1 g [[a]] [[b]] [[q]] [[r]] [[nn]] = Some AGH0 ->
+  ricc_iter k 1 AGH0 = Some (Ak, Gk, Hk) ->
+  ~ r + b * b * x == 0 ->
+  ricc_res_scalar a b q r nn x == 0 ->
+  sda_eq (get Ak 0 0) (get Gk 0 0) (get Hk 0 0) (x - g).
+Proof.
+  intros Hi Hit Hd Hres. revert Ak Gk Hk Hit. induction k; intros Ak Gk Hk Hit.
+  - simpl in Hit. injection Hit as ->. eapply ricc_init_scalar_transfer; eauto.
+  - rewrite ricc_iter_S in Hit.
+    destruct (ricc_iter k 1 AGH0) as [[[A' G'] H']|]; [|discriminate].
+    eapply ricc_step_scalar_transfer; [exact Hit|]. now apply IHk.
+Qed.
+
+(* if the doubled A_k vanishes, H_k + gamma is THE solution: every solution x of the Riccati equation
+   whose denominators do not vanish equals it *)
+Theorem riccati_scalar_limit_solves g a b q r nn x k AGH0 Ak Gk Hk :
+  ricc_init 1 1 g [[a]] [[b]] [[q]] [[r]] [[nn]] = Some AGH0 ->
+  ricc_iter k 1 AGH0 = Some (Ak, Gk, Hk) ->
+  ~ r + b * b * x == 0 ->
+  ricc_res_scalar a b q r nn x == 0 ->
+  get Ak 0 0 == 0 -> ~ 1 + get Gk 0 0 * (x - g) == 0 ->
+  x == get (madd 1 1 Hk (mscale 1 1 g (mid 1))) 0 0.
+Proof.
+  intros Hi Hit Hd Hres Ha Hden.
+  pose proof (riccati_scalar_fixed_point_transfer _ _ _ _ _ _ _ _ _ _ _ _ Hi Hit Hd Hres) as E.
+  unfold sda_eq in E. rewrite Ha in E.
+  rewrite get_madd, get_mscale, get_mid by lia. simpl.
+  assert (E' : (x - g - get Hk 0 0) * (1 + get Gk 0 0 * (x - g)) == 0) by lra.
+  apply Qmult_integral in E'. destruct E' as [E'|E']; [lra|contradiction].
+Qed.
+
+(* the residual function of the model at ns = nc = 1 is the scalar residual *)
+Lemma ricc_residual_mat_scalar a b q r nn x M :
+  ricc_residual_mat 1 1 [[a]] [[b]] [[q]] [[r]] [[nn]] [[x]] = Some M ->
+  ~ r + b * b * x == 0 /\ get M 0 0 == ricc_res_scalar a b q r nn x.
+Proof.
+  unfold ricc_residual_mat. rewrite solve_1x1.
+  cbn -[Qeq_bool Qdivr Qsubr Qmulr Qaddr].
+  destruct (Qeq_bool _ 0) eqn:E; [discriminate|].
+  intros Heq. injection Heq as <-.
+  assert (Hnz : ~ r + b * b * x == 0).
+  { intro Hz. apply Qeq_bool_neq in E. apply E. qnorm. transitivity (r + b * b * x); [ring|exact Hz]. }
+  split; [exact Hnz|].
+  cbn -[Qdivr Qsubr Qmulr Qaddr]. qnorm. unfold ricc_res_scalar. field. exact Hnz.
+Qed.
